@@ -181,7 +181,11 @@ func (thisListener *GruleV3ParserListener) ExitRuleEntry(ctx *grulev3.RuleEntryC
 	}
 	if ctx.RuleDescription() != nil {
 		txt := ctx.RuleDescription().GetText()
-		entry.RuleDescription = txt[1 : len(txt)-1]
+		if dec, err := unquoteString(txt); err == nil {
+			entry.RuleDescription = dec
+		} else {
+			entry.RuleDescription = txt[1 : len(txt)-1]
+		}
 	}
 
 	entryReceiver, popOk := thisListener.Stack.Peek().(ast.RuleEntryReceiver)
